@@ -161,3 +161,18 @@ Proof.
   intros F. pose proof (run_stream_prefix beh rs n s log) as H.
   destruct (run beh n (handed_out rs) s log) as [[s1 log1] a]. rewrite H, F, andb_true_r. reflexivity.
 Qed.
+
+(* ------------------------------------------------------------------ the answer check under concurrent insertions *)
+(* for EVERY schedule of insertions/removals by other threads between the loop steps, the scan over the snapshot visits
+   exactly the keys present when it started and ends normally: no exception reaches Caller.call / run(), the packet goes
+   on to the port callbacks (dispatch continues as in the theorems above) *)
+Theorem snapshot_scan_never_raises : forall snap other k d,
+  let '(vis, _, ok) := scan_snapshot snap other k d in vis = snap /\ ok = true.
+Proof.
+  induction snap as [|p rest IH]; intros other k d; cbn [scan_snapshot]; [auto|].
+  specialize (IH other (S k) (kapply d (other k))).
+  destruct (scan_snapshot rest other (S k) (kapply d (other k))) as [[vis d'] ok]. destruct IH as [-> ->]. auto.
+Qed.
+
+Corollary answer_scan_ok d other : let '(vis, _, ok) := answer_scan d other in vis = d /\ ok = true.
+Proof. apply snapshot_scan_never_raises. Qed.
